@@ -10,7 +10,8 @@ POSE, GNSS_INFO, IMU = 10000, 10001, 11000
 EVENT, VERSION = 13004, 13003
 UNK1, UNK2 = 60001, 60002
 TIMED = [POSE, GNSS_INFO, IMU]
-UNTIMED = [EVENT, VERSION, UNK1, UNK2]
+INVALID0 = 0             # MessageType.INVALID: a falsy enum value that is a perfectly good message type
+UNTIMED = [EVENT, VERSION, UNK1, UNK2, INVALID0]
 HEADER_SIZE = 24      # overwritten from the generated constants by the property modules
 POPULATE_COUNT = 10
 
@@ -80,6 +81,8 @@ def fixed_logs():
         [['m', P, 0, None], ['m', E, 0, None], ['m', P, 0, 8005], ['m', P, 0, None], ['m', G, 0, 8013], ['m', E, 0, None]],
         [['m', P, 0, 80]],
         [['m', E, 0, None]],
+        # type 0 (MessageType.INVALID) and source id 0 next to other types / sources
+        [['m', INVALID0, 0, None], ['m', P, 1, 80], ['m', INVALID0, 1, None], ['m', E, 0, None], ['m', P, 0, 88], ['m', INVALID0, 0, None], ['m', G, 1, 96]],
         [['m', P, 0, 16], ['m', P, 0, 16], ['m', E, 0, None], ['m', P, 0, 16], ['m', P, 0, 24], ['m', P, 0, 24]],
         # first P1 time fractional (10.625 s), messages every half second, untimed messages of two types in between
         [['m', E, 0, None], ['m', P, 0, 85], ['m', E, 1, None], ['m', G, 0, 89], ['m', UNK1, 0, None], ['m', P, 1, 93], ['m', E, 0, None],
